@@ -1,5 +1,5 @@
 """C19 — CSV ingestion is faithful to the file."""
-import atexit, csv, io, itertools, os, shutil, tempfile
+import atexit, csv, io, itertools, os, random, shutil, tempfile
 from values import Interner, dtype_wire, err_class
 
 PID = "C19"
@@ -10,7 +10,9 @@ RULE = ("texts are produced with csv.writer from tables of cell texts (or, famil
         "to those records and must equal column_names()/len()/cells/schema() of read_csv's result. Exhaustive: every "
         "record-length pattern for header width 0..3 x 0..3 records (lengths 0..width+1), each x has_header x 4 delimiters "
         "x source kinds; every pool cell alone and every ordered pair of pool cells in one column; all raw strings to "
-        "length 4 (quick) / 6 (thorough). non-trivial = at least one of: jagged record, blank/None cell, numeric "
+        "length 4 (quick) / 6 (thorough). gap analysis: calls that leave delimiter/has_header/encoding at their defaults, file objects in "
+        "default newline mode and TextIOWrapper over bytes, numeric texts padded with Unicode whitespace and further look-alikes, a byte-order "
+        "mark in cells and header, 12..60 columns, 1001+ records with a late change of character, one 70000-character cell. non-trivial = at least one of: jagged record, blank/None cell, numeric "
         "look-alike, cell needing quotes, repeated or odd header name, header-only, header-less, empty input, zero columns")
 ASSUMPTIONS = ["the lexical layer is modelled (Serif.CsvLex: csv.reader's state machine with the dialect defaults read_csv leaves "
                "in place, driven over the lines the file object delivers); on every case the model's records must equal "
@@ -42,6 +44,14 @@ POOL = LOOKALIKE + BLANKS + QUOTED + UNICODE + PLAIN
 HEADERS = ["a", "b", "a", "", " ", "x y", "1", "sum", "A", "é", "a,b", "l1\nl2", '"q"', "col_0", "None", " a ", "日本", "name", "len",
            "dom\\user", "tail\\"]
 
+# --- gap families (kept apart from the classic pools so that the classic streams are unchanged) --------------------------------
+# numeric texts padded with whitespace only str.strip()/int()/float() know about, further look-alikes, a byte-order mark
+LOOKALIKE2 = ["\u20037\u2003", "\xa01.5", "\x1c5", "5\x85", "\u30003", "-", "+", ".", "e5", "0e0", "1e-400", "infinity", "-nan", "+inf",
+              "1_0.5", "1e1_0", "0o17", "0_0", "00", "-00", "1.e1", "+-1", "1.5.2", "0x", "1e+", "٣.٥", "-١", "1\u00a0000", "\ufeff1",
+              "\ufeff", "\xa0x\u2003", "\x1fy z\x1c", "9" * 4301, "TRUE", "null", "NA", "1 ", " -2", "3 \t"]
+HEADERS2 = ["\ufeffa", "a", "A", "col_1", "", "1", " a", "a ", "\xa0", "x\ty", "None"]
+SOURCES2 = ["file_default", "textwrap"]      # open(path) in its default newline mode (the docstring example); a TextIOWrapper over bytes
+
 _TMP = {"dir": None}
 
 
@@ -55,6 +65,61 @@ def _tmpdir():
 
 def _cells(rng, n, pool=POOL):
     return [rng.choice(pool) for _ in range(n)]
+
+
+def _generate_gaps(rng, thorough):
+    reps = 1 if not thorough else 8
+    # (a) the arguments left at their defaults (no delimiter=, no has_header=, no encoding=): every source kind, old and new
+    for _rep in range(reps * 3):
+        for src in SOURCES + SOURCES2:
+            for w in (1, 2, 3):
+                nrec = rng.choice([0, 1, 2, 4])
+                recs = [_cells(rng, w, HEADERS)] + [_cells(rng, rng.choice([w, w, w - 1, w + 1]), POOL) for _ in range(nrec)]
+                yield {"fam": "read", "gen": "defaults", "delim": ",", "hh": True, "src": src, "records": recs, "defaults": True,
+                       "quoting": rng.choice([0, 0, 1]), "lt": rng.choice(["\r\n", "\n", "\r"])}
+    for text in ("", "\n", "a\n", "a,b\n1,2\n", "1,2\n3,4", "a;b\n1;2\n", "\ufeffa,b\n1,2\n", 'a,"b\r\nc"\r\n1,2\r\n'):
+        for src in SOURCES + SOURCES2:
+            yield {"fam": "read", "gen": "defaults", "delim": ",", "hh": True, "src": src, "text": text, "defaults": True}
+    # (b) the new source kinds with every dialect and has_header setting (embedded CR / CRLF are where they differ from the others)
+    for _rep in range(reps * 2):
+        for src in SOURCES2:
+            for d in DELIMS:
+                for hh in (True, False):
+                    w = rng.choice([1, 2, 3])
+                    pool = rng.choice([POOL, QUOTED + BLANKS, LOOKALIKE + BLANKS])
+                    recs = [_cells(rng, w, HEADERS if hh else pool)] + [_cells(rng, rng.choice([w, w, w + 1, max(0, w - 1)]), pool)
+                                                                       for _ in range(rng.choice([0, 1, 3, 6]))]
+                    yield {"fam": "read", "gen": "sources", "delim": d, "hh": hh, "src": src, "records": recs,
+                           "quoting": rng.choice([0, 1]), "lt": rng.choice(["\r\n", "\n", "\r"])}
+    soup = ["a", "1", " ", '"', "\n", "\r\n", "\r", "é", ",", ","]
+    for _ in range(150 * reps):
+        yield {"fam": "read", "gen": "sources", "delim": ",", "hh": rng.random() < 0.5, "src": rng.choice(SOURCES2),
+               "text": "".join(rng.choice(soup) for _ in range(rng.randint(1, 16)))}
+    # (c) further cell texts: alone, and under / above an int, a float, a text and a blank (column dtype by inference)
+    for cell in LOOKALIKE2:
+        for d in (",", ";"):
+            for hh in (True, False):
+                yield {"fam": "read", "gen": "cell2", "delim": d, "hh": hh, "src": "sio", "records": ([["h"]] if hh else []) + [[cell]]}
+        for other in ("1", "2.5", "x", "", " "):
+            yield {"fam": "read", "gen": "cell2", "delim": ",", "hh": True, "src": rng.choice(SOURCES), "records": [["h"], [cell], [other]]}
+            yield {"fam": "read", "gen": "cell2", "delim": ",", "hh": True, "src": "sio", "records": [["h"], [other], [cell]]}
+    for h in HEADERS2:
+        for h2 in HEADERS2[:6]:
+            yield {"fam": "read", "gen": "cell2", "delim": ",", "hh": True, "src": rng.choice(SOURCES + SOURCES2),
+                   "records": [[h, h2], ["1", "x"]], "defaults": rng.random() < 0.5}
+    # (d) shapes beyond the classic ones: 12..60 columns, 1000+ records (with a late change of character), one very long cell
+    for w in (12, 25, 60) * reps:
+        nrec = rng.choice([0, 1, 3])
+        hh = rng.random() < 0.7
+        recs = [_cells(rng, w, HEADERS if hh else POOL)] + [_cells(rng, rng.choice([w, w - 5, w + 3]), POOL) for _ in range(nrec)]
+        yield {"fam": "read", "gen": "shape", "delim": rng.choice(DELIMS), "hh": hh, "src": rng.choice(SOURCES + SOURCES2), "records": recs,
+               "quoting": 0, "lt": "\n"}
+    for nrec in (1001, 1100):
+        for kind, late in ((["x", "y z"], "7"), (["x", "abc"], "1e3"), (["1", " 42 "], "x"), (["", " "], "7"), (["2.5", "nan"], "")):
+            recs = [["c0", "c1"]] + [[rng.choice(kind), str(r)] for r in range(nrec)]
+            recs[rng.choice([nrec, 1001])][0] = late            # data record 1000 (the 1001st) or the last one
+            yield {"fam": "read", "gen": "shape", "delim": ",", "hh": True, "src": rng.choice(SOURCES), "records": recs, "quoting": 0, "lt": "\n"}
+    yield {"fam": "read", "gen": "shape", "delim": ",", "hh": True, "src": "sio", "records": [["h", "k"], ["x" * 70000, "1" * 5000], ["", "2"]]}
 
 
 def generate(rng, tier):
@@ -71,6 +136,8 @@ def generate(rng, tier):
             for hh in (True, False):
                 yield {"fam": "read", "gen": "cell", "delim": d, "hh": hh, "src": "sio",
                        "records": ([["h"]] if hh else []) + [[cell]]}
+    # 1b. (gap analysis) own generator, seeded from rng's state without drawing from it
+    yield from _generate_gaps(random.Random(hash(rng.getstate()[1][:8])), thorough)
     # 2. every ordered pair of pool cells in one column (dtype by inference, first cell blank, ...)
     for a in POOL:
         for b in POOL:
@@ -153,6 +220,9 @@ def _sources(spec, text):
         return (lambda: io.StringIO(text, newline="")), (lambda: io.StringIO(text, newline="")), {}
     if src == "sio_default":
         return (lambda: io.StringIO(text)), (lambda: io.StringIO(text)), {}
+    if src == "textwrap":
+        mk = lambda: io.TextIOWrapper(io.BytesIO(text.encode("utf-8")), encoding="utf-8", newline="")
+        return mk, mk, {}
     enc = "latin-1" if src == "path_latin1" else "utf-8"
     path = os.path.join(_tmpdir(), "in.csv")
     with open(path, "w", encoding=enc, newline="") as f:
@@ -160,6 +230,10 @@ def _sources(spec, text):
     opener = lambda: open(path, "r", encoding=enc, newline="")
     if src == "file":
         return opener, opener, {}
+    if src == "file_default":
+        # what the docstring of read_csv shows: `with open("data.csv") as f: read_csv(f)` - the file object translates line ends
+        translating = lambda: open(path, "r", encoding=enc)
+        return translating, translating, {}
     kw = {"encoding": enc} if src == "path_latin1" else {}
     return opener, (lambda: path), kw
 
@@ -178,13 +252,20 @@ def execute(spec):
         lines = list(f)          # the lines as this kind of file object delivers them (what csv.reader pulls)
     finally:
         f.close()
+    # the source kinds the Lean line-splitting model knows: a translating file object delivers the lines of the translated text
+    # cut at LF (policy of sio_default); a TextIOWrapper with newline='' behaves like a file opened with newline=''
+    wire_src, wire_text = spec["src"], text
+    if spec["src"] == "file_default":
+        wire_src, wire_text = "sio_default", "".join(lines)
+    elif spec["src"] == "textwrap":
+        wire_src = "file"
     f = mk_oracle()
     try:
         lex = list(csv.reader(f, delimiter=spec["delim"]))
     except csv.Error as e:
         # the lexer model (Serif.CsvLex) must reject the text as well; what read_csv does with it is not judged
-        return {"fam": "lex", "case": {"lines": lines, "delim": spec["delim"], "src": spec["src"], "has_header": bool(spec["hh"]),
-                                       "records": [], "text": text}, "impl": {"lexerr": True}}
+        return {"fam": "lex", "case": {"lines": lines, "delim": spec["delim"], "src": wire_src, "has_header": bool(spec["hh"]),
+                                       "records": [], "text": wire_text}, "impl": {"lexerr": True}}
     finally:
         f.close()
     I = Interner()
@@ -204,11 +285,14 @@ def execute(spec):
         sw = I.wire(s)
         return {"t": t, "b": (not t) or t.strip() == "", "i": i, "f": fl, "s": [sw[0], sw[2]]}
 
-    case = {"has_header": bool(spec["hh"]), "src": spec["src"], "records": [[cell(t) for t in rec] for rec in lex],
-            "lines": lines, "delim": spec["delim"], "text": text}
+    case = {"has_header": bool(spec["hh"]), "src": wire_src, "records": [[cell(t) for t in rec] for rec in lex],
+            "lines": lines, "delim": spec["delim"], "text": wire_text}
     arg = mk_arg()
     try:
-        t = read_csv(arg, delimiter=spec["delim"], has_header=spec["hh"], **kw)
+        if spec.get("defaults") and spec["delim"] == "," and spec["hh"] is True:
+            t = read_csv(arg, **kw)      # delimiter, has_header (and encoding unless latin-1) left at their defaults
+        else:
+            t = read_csv(arg, delimiter=spec["delim"], has_header=spec["hh"], **kw)
     except Exception as e:
         impl = {"err": err_class(e)}
     else:
@@ -316,6 +400,16 @@ def snippet(spec):
     kw = f", delimiter={spec['delim']!r}" if spec["delim"] != "," else ""
     if not spec["hh"]:
         kw += ", has_header=False"
+    if spec.get("defaults") and spec["delim"] == "," and spec["hh"]:
+        kw = ""
+    if spec["src"] in ("file_default", "textwrap"):
+        arg = ("open('in.csv', encoding='utf-8')" if spec["src"] == "file_default"
+               else f"io.TextIOWrapper(io.BytesIO({text!r}.encode('utf-8')), encoding='utf-8', newline='')")
+        return ("import io, csv\nfrom serif import read_csv\n"
+                + f"open('in.csv', 'w', encoding='utf-8', newline='').write({text!r})\n"
+                + f"t = read_csv({arg}{kw})\n"
+                + "print(t.column_names(), len(t), [list(c) for c in t.cols()], [c.schema() for c in t.cols()])\n"
+                + f"print(list(csv.reader({arg}{kw.split(', has_header')[0]})))   # the same source through the csv module")
     if spec["src"] in ("sio", "sio_default"):
         arg = f"io.StringIO({text!r}, newline='')" if spec["src"] == "sio" else f"io.StringIO({text!r})"
         pre = ""
